@@ -398,7 +398,7 @@ func (x *Exec) callFunction(fr *Frame, st *State, callee *ssa.Function, args []V
 		}
 	}
 	u := x.vc.uni
-	if fc, pkg := u.contractFor(callee); fc != nil && !fc.Inline && callee != fr.top.fn || fc != nil && callee == fr.top.fn {
+	if fc, pkg := u.contractFor(callee); !explicitAbstract && fc != nil && !fc.Inline && callee != fr.top.fn || fc != nil && callee == fr.top.fn {
 		// (a recursive call always goes through the contract)
 		return x.contractCall(fr, st, callee, fc, pkg, args, pos, resT)
 	}
